@@ -30,8 +30,9 @@ type CheckConfig struct {
 	ShufflePermutations bool             `json:"shuffle_permutations"`
 	BudgetS             int              `json:"budget_s"`
 	MustReach           []string         `json:"must_reach"`
-	Params              map[string]int64 `json:"params"`          // harness parameters (read via verifParam)
-	AllocEnumerate      int              `json:"alloc_enumerate"` // symbolic allocation sizes up to this are enumerated
+	Params              map[string]int64 `json:"params"`            // harness parameters (read via verifParam)
+	VirtualHorizonS     int              `json:"virtual_horizon_s"` // stall detection horizon (virtual seconds)
+	AllocEnumerate      int              `json:"alloc_enumerate"`   // symbolic allocation sizes up to this are enumerated
 	Note                string           `json:"note"`
 
 	queryLog io.Writer
@@ -75,7 +76,7 @@ func runPath(e *Engine, solver *Solver, item WorkItem) (res *PathResult, pending
 	res = &PathResult{Reached: map[string]bool{}, Funcs: map[string]int{}}
 	px := &PathCtx{
 		eng: e, tc: newTermCtx(), solver: solver, prefix: item.Prefix, res: res,
-		stepLimit: e.cfg.StepLimit, clock: 1_700_000_000 * 1e9, quiesceHorizon: 1 << 62,
+		stepLimit: e.cfg.StepLimit, clock: 1_700_000_000 * 1e9, clock0: 1_700_000_000 * 1e9, quiesceHorizon: 1 << 62,
 	}
 	i := &interpreter{prog: e.prog, globals: map[*ssa.Global]*value{}, sizes: e.prog.sizes, px: px}
 	i.runtimeErrorString = e.prog.byPath["runtime"].Type("errorString").Type()
